@@ -4,5 +4,5 @@ CONSTANTS
   MaxPkgs = 3
   ATOMIC = TRUE
   PTRACK = TRUE
-INVARIANTS C12_DistinctIds C12_SetupSucceedsOnAck C12_RoutedToHeaderChannel C12_InOrder C12_NoCrossTalk
+INVARIANTS C12_DistinctIds C12_SetupSucceedsOnAck C12_RoutedToHeaderChannel C12_InOrder C12_NoCrossTalk C12_NoReuseAfterClose
 CHECK_DEADLOCK FALSE
